@@ -980,6 +980,11 @@ def sym_abs(x):
     return abs(x)
 
 
+def sym_abs_term(x):
+    """abs as an If-term (proxies already implement __abs__ that way); plain numbers go to the builtin"""
+    return abs(x)
+
+
 def _context_free_unsat(c):
     s0 = z3.Solver()
     s0.set('timeout', 2000)
